@@ -358,6 +358,12 @@ func (a *TSSActor) Act(e *Env) {
 			if err != nil {
 				e.St.Probe("member_cannot_sign:" + err.Error())
 				m.done[key] = true
+				if err.Error() != "no_group_key" && err.Error() != "no_private_de" {
+					// the member holds its key share and the private nonce pair the chain assigned, yet the signing library cannot
+					// produce a share for the committee as the chain recorded it: nobody can ever complete this attempt
+					list, _ := e.Shared["c03.unsignable"].([]string)
+					e.Shared["c03.unsignable"] = append(list, fmt.Sprintf("signing %d attempt %d, member %d of committee %v: %v", o.s.ID, o.sa.Attempt, am.MemberID, sortedMemberIDsRaw(o.sa.AssignedMembers), err))
+				}
 				continue
 			}
 			m.done[key] = true
@@ -734,6 +740,15 @@ func drawMemberBehaviour(e *Env, pool *TSSPool, maxDE int, allowSilent bool) {
 			m.Silent = true
 		}
 	}
+}
+
+// sortedMemberIDsRaw lists the assigned member ids in stored order (duplicates kept).
+func sortedMemberIDsRaw(ams []tsstypes.AssignedMember) []uint64 {
+	var o []uint64
+	for _, a := range ams {
+		o = append(o, uint64(a.MemberID))
+	}
+	return o
 }
 
 func sortedMemberIDs(ams []tsstypes.AssignedMember) []uint64 {
